@@ -245,7 +245,8 @@ def run(out, tier, rng, work):
                 'ordinary, own and illegal (254/255) sources; data lengths 0..8 resp. 0..64; gaps 0..3.1 s) fed to a real stack that may '
                 'itself be sending; oracle: job thread alive, a 100 ms periodic timer fires on time throughout (no stall, no spin), tables '
                 'empty after the longest timeout, then a well-formed transfer completes in both directions; J1939-21 logs replayed on the '
-                'Coq model; non-trivial = the stream made the stack transmit or raise')
+                'Coq model; non-trivial = the stream made the stack transmit or raise'
+                " Directed families: CTS around the end of the message; the peer aborts 1, 2 or 9 of the stack's own transfers in a row; the peer's last data packet crosses the stack's own time-out abort (handled inside the send call). A handler that does not return is broken up by the harness watchdog and reported.")
     out.assumptions = ['A1-A6 of DESIGN.md section 3', 'J1939-22 layer by exploration/oracle only in this check']
     sprop.run_stateful(out, 'C07', tier, rng, work, FILES, gen, oracle, 160, 4000, nontrivial,
                        sample=lambda sc, res: dict(dll=sc.get('dll'), frames=[(hex(i['id']), i['data'][:4]) for i in sc.get('inject', [])[:4]],
